@@ -1,5 +1,6 @@
 import PBProofs.Lemmas.Subs
 import PBProofs.Lemmas.SubsConc
+import PBProofs.Lemmas.HooksConc
 /-
 C14 — Subscriptions deliver every matching write in order; hooks fire as registered.
 Property theorems only (helper lemmas live in PBProofs/Lemmas/Subs.lean and PBProofs/Lemmas/SubsConc.lean).
@@ -49,6 +50,24 @@ theorem offer_exact (s : Sub) (r : Rec) :
   by_cases hv : s.visible r = true
   · by_cases hroom : s.buf.length < PB.Gen.Subs.feedCap <;> simp [hv, hroom]
   · simp [hv]
+
+/-- **The buffer proviso is per subscription.** `notifySubscribers` makes one independent loop iteration for every
+    listed subscription, whatever happened at the subscriptions before it in the list — in particular a *full*
+    feed of an earlier subscription (its `default:` branch) does not end the loop: the subscriptions after it are
+    offered the record all the same, and each decides on its *own* buffer. (Stated over the loop as it is written,
+    `notifyLoop`, with the `return`/`break` shape of its three paths regenerated from the source.) -/
+theorem notify_offers_every_subscription_independently (r : Rec) (pre post : List Sub) (s : Sub) :
+    notifyLoop r (pre ++ s :: post) = pre.map (·.offer r) ++ s.offer r :: post.map (·.offer r) := by
+  simp [notifyLoop_eq_map]
+
+/-- … hence: a record that is for `s` is buffered for `s` iff `s`'s own buffer has room, no matter how full the
+    feeds of the subscriptions listed before or after it are. -/
+theorem full_feed_of_another_subscription_does_not_matter (st : St) (r : Rec) (pre post : List Sub) (s : Sub)
+    (hl : st.subs = pre ++ s :: post) (hv : s.visible r = true) (hroom : s.buf.length < PB.Gen.Subs.feedCap) :
+    (notify st r).subs = pre.map (·.offer r) ++ { s with buf := s.buf ++ [r], attempts := s.attempts ++ [(r, true)] } ::
+      post.map (·.offer r) := by
+  rw [notify_subs, hl]
+  simp [Sub.offer, hv, hroom]
 
 /-- "May see" is `Meta.CheckPermission` as regenerated from the source: crown jewels need a local subscriber,
     secrets an internal one. -/
@@ -112,10 +131,24 @@ theorem cancel_silences (st : St) (op : Op) :
     · rfl
     · split <;> exact hcp _ _
   | get o key => exact same _ rfl
+  | exists_ o key => exact same _ rfl
   | push r => exact same _ rfl
   | flush => exact same _ rfl
+  | putMany o rs => apply same; simp only [step]; split <;> rfl
   | drain =>
     simp only [step, List.map_map]
+    exact List.prefix_refl _
+  | drainOne id =>
+    simp only [step, List.map_map]
+    have : ((fun p : Sub × Nat => (p.1.id, p.1.attempts, p.2)) ∘
+        fun x : Sub × Nat => (if (x.1.id == id) = true then { x.1 with buf := [] } else x.1, x.2)) =
+        fun p : Sub × Nat => (p.1.id, p.1.attempts, p.2) := by
+      funext x
+      by_cases hx : (x.1.id == id) = true
+      · simp only [Function.comp, hx, if_true]
+      · simp only [Function.comp, hx]
+        rfl
+    rw [this]
     exact List.prefix_refl _
 
 /-! ## A.2 Every successful write is delivered, failed ones are not -/
@@ -146,7 +179,7 @@ theorem controller_put_delivers_iff_successful (st : St) (r : Rec) :
         show (runPrePut st.hooks r).1 = _; rw [h1]
       rw [e] at this; exact this
     have hs := storeWrite_ok hw
-    refine ⟨w, ⟨rfl, rfl, rfl⟩, ?_, ?_⟩
+    refine ⟨w, ⟨rfl, notify_subs _ w, rfl⟩, ?_, ?_⟩
     · by_cases hd : (!st.cfg.shadow && r'.md.deleted) = true
       · simp only [hd, if_true] at hs
         obtain ⟨rfl, hg⟩ := hs
@@ -193,6 +226,29 @@ theorem put_delivers_full_statement_REFUTED :
     (by simp [step, ifacePut, putDenied, Opts.all, putPrepared, applyOpts, newForm])
   simp [step, ifacePut, putDenied, Opts.all, putPrepared, applyOpts, newForm, St.init] at hw
 
+/-- `Interface.PutMany` is the other write that does not reach the subscribers (nor the pre-put hooks): the batch goes
+    to the storage directly — documented on `PutMany` itself ("omits … Hooks, Subscriptions"). Recorded as a finding
+    against the statement's "through any interface". -/
+theorem putmany_delivers_full_statement_REFUTED :
+    ¬ (∀ (st : St) (o : Opts) (r : Rec),
+        (step st (.putMany o [r])).2.res = .ok none → sGet (step st (.putMany o [r])).1.store r.key = some (applyOpts o r) →
+        ∃ w, Delivered st (step st (.putMany o [r])).1 w) := by
+  intro h
+  obtain ⟨w, hw, _⟩ := h (St.init ⟨.hashmap, false⟩) { loc := true, int := true } ⟨"k", 0, "", {}⟩
+    (by simp [step, Opts.all]) (by simp [step, Opts.all, St.init, flushStore, applyOpts, sGet, sPut, sErase])
+  simp [step, Opts.all, St.init] at hw
+
+/-- … what it does do: nothing for an interface without all permissions; otherwise the storage is written and
+    nothing else — no feed, no hook call. -/
+theorem putmany_writes_storage_only (st : St) (o : Opts) (rs : List Rec) :
+    (step st (.putMany o rs)).2.calls = [] ∧ (step st (.putMany o rs)).1.subs = st.subs ∧
+    (step st (.putMany o rs)).1.writes = st.writes ∧ (step st (.putMany o rs)).1.closed = st.closed ∧
+    (o.all = false → (step st (.putMany o rs)).1 = st ∧ (step st (.putMany o rs)).2.res = .error .denied) := by
+  simp only [step]
+  by_cases ha : o.all = true
+  · simp [ha]
+  · simp [ha]
+
 /-- In-place modifications (`Delete`, `MakeSecret`, `MakeCrownJewel`, `SetAbsoluteExpiry`, `InsertValue`):
     delivered iff successful; a failed one delivers nothing. -/
 theorem modify_delivers_iff_successful (st : St) (o : Opts) (key : String) (m : Mod) :
@@ -223,17 +279,36 @@ theorem modify_delivers_iff_successful (st : St) (o : Opts) (key : String) (m : 
         | error e => intro h; simp only []; rw [h]; exact ⟨rfl, rfl, rfl⟩
 
 /-- `PushUpdate` of an injected database: delivered, unconditionally. -/
-theorem push_delivers (st : St) (r : Rec) : Delivered st (step st (.push r)).1 r := ⟨rfl, rfl, rfl⟩
+theorem push_delivers (st : St) (r : Rec) : Delivered st (step st (.push r)).1 r := ⟨rfl, notify_subs st r, rfl⟩
 
-/-- Everything that is not a write delivers nothing: `Get`, hook (un)registration, flushing the delayed-write cache. -/
+/-- Everything that is not a write delivers nothing: `Get`, `Exists`, hook (un)registration, flushing the delayed-write cache. -/
 theorem non_writes_deliver_nothing (st : St) (op : Op)
-    (h : (∃ o k, op = .get o k) ∨ (∃ hk, op = .regHook hk) ∨ (∃ id, op = .cancelHook id) ∨ op = .flush) :
+    (h : (∃ o k, op = .get o k) ∨ (∃ o k, op = .exists_ o k) ∨ (∃ hk, op = .regHook hk) ∨ (∃ id, op = .cancelHook id) ∨ op = .flush) :
     (step st op).1.subs = st.subs ∧ (step st op).1.writes = st.writes ∧ (step st op).1.closed = st.closed := by
-  rcases h with ⟨o, k, rfl⟩ | ⟨hk, rfl⟩ | ⟨id, rfl⟩ | rfl
+  rcases h with ⟨o, k, rfl⟩ | ⟨o, k, rfl⟩ | ⟨hk, rfl⟩ | ⟨id, rfl⟩ | rfl
+  · exact ⟨rfl, rfl, rfl⟩
   · exact ⟨rfl, rfl, rfl⟩
   · simp only [step]; split <;> exact ⟨rfl, rfl, rfl⟩
   · exact ⟨rfl, rfl, rfl⟩
   · exact ⟨rfl, rfl, rfl⟩
+
+/-- `Interface.Exists` is a get operation: it makes exactly the hook calls `Get` makes, changes nothing, and answers
+    yes iff `Get` succeeds or is refused for lack of permission, no iff `Get` finds nothing; a veto is handed on. -/
+theorem exists_is_a_get (st : St) (o : Opts) (key : String) :
+    (step st (.exists_ o key)).2.calls = (step st (.get o key)).2.calls ∧ (step st (.exists_ o key)).1 = st ∧
+    (step st (.exists_ o key)).2.flag =
+      (match (step st (.get o key)).2.res with
+       | .ok _ => some true
+       | .error .notfound => some false
+       | .error .denied => some true
+       | .error _ => none) ∧
+    (∀ c, (step st (.get o key)).2.res = .error (.veto c) → (step st (.exists_ o key)).2.res = .error (.veto c)) := by
+  simp only [step, ifaceExists, ifaceGet]
+  cases hg : ifaceGetRec st o key with
+  | mk cs v =>
+    cases v with
+    | ok p => simp
+    | error e => cases e <;> simp
 
 /-! ## A.3 Hooks -/
 
@@ -539,7 +614,161 @@ theorem pinned_cancel_by_query_pointer_REFUTED :
       = some ([1], true, true) := by
   decide
 
+/-! ## C. Interleavings of hook runners with `RegisterHook` and `RegisteredHook.Cancel` (any number of each)
+
+Model `PB.HooksConc`: `runPreGetHooks` / `runPostGetHooks` / `runPrePutHooks` against `Cancel`, lock-granular. The
+locking is the regenerated one (`LockCfg.code`: is `hooksLock` held while the hooks are called — per phase —, does
+`Cancel` take it exclusively). Ghost fields: `calls` — every call begin `(runner, hook)` in temporal order;
+`cancelReturned h` — a `Cancel` of `h` has returned; `late` — call begins made although `cancelReturned` was set. -/
+
+open PB.HooksConc in
+/-- **A hook is no longer called once its cancel returned** — in every interleaving of any number of gets / puts
+    (in all three phases), registrations and cancels: no call of a hook *begins* after a `Cancel` of that hook has
+    returned (`late` stays empty in every reachable state), and a step taken when `Cancel` of `h` has returned adds
+    no call of `h`. A call that is in progress when `Cancel` is called is finished first: `Cancel` cannot enter its
+    locked section before (`hook_lock_protocol`). -/
+theorem hook_not_called_after_cancel_returned (phaseOf : Nat → Phase) (applies : Nat → Nat → Bool) (st : HSt)
+    (h : Reach LockCfg.code phaseOf applies st) :
+    st.late = [] ∧
+    ∀ (a : Act) (st' : HSt) (k : Nat), step LockCfg.code phaseOf applies st a = some st' → st.cancelReturned k = true →
+      st'.calls.filter (fun e => e.2 == k) = st.calls.filter (fun e => e.2 == k) := by
+  have hi := inv_reach LockCfg.code_sound h
+  refine ⟨hi.noLate, ?_⟩
+  intro a st' k hs hk
+  rcases step_calls hs with e | ⟨g, j, rem, _, hg, e⟩
+  · rw [e]
+  · have hj : j ∈ st.hooks := hi.pendHooks g j (by rw [hg]; simp [pendOf])
+    have hne : j ≠ k := fun e' => (hi.retOut k hk).1 (e' ▸ hj)
+    rw [e, List.filter_append]
+    simp [hne]
+
+open PB.HooksConc in
+/-- The lock protocol of `hooksLock`: a `Cancel` in its locked section excludes every runner that is in its loop
+    (between `RLock` and `RUnlock`, in particular inside a hook call) and every other `Cancel`; what a runner is
+    calling or still has to call is registered. -/
+theorem hook_lock_protocol (phaseOf : Nat → Phase) (applies : Nat → Nat → Bool) (st : HSt)
+    (h : Reach LockCfg.code phaseOf applies st) :
+    (∀ x, (st.xpc x).inCS = true → (∀ g, inLoop (st.rpc g) = false) ∧ ∀ y, (st.xpc y).inCS = true → y = x) ∧
+    (∀ g k, k ∈ pendOf (st.rpc g) → k ∈ st.hooks ∧ st.cancelReturned k = false) := by
+  have hi := inv_reach LockCfg.code_sound h
+  refine ⟨fun x hx => ⟨fun g => ?_, fun y hy => hi.csUnique y x hy hx⟩, fun g k hk => ⟨hi.pendHooks g k hk, ?_⟩⟩
+  · have hrd := hi.wlRd (hi.csWl x hx)
+    have := hi.rdIff g
+    rw [hrd] at this
+    cases hl : inLoop (st.rpc g) with
+    | false => rfl
+    | true => rw [hl] at this; simp at this
+  · cases hr : st.cancelReturned k with
+    | false => rfl
+    | true => exact absurd (hi.pendHooks g k hk) (hi.retOut k hr).1
+
+open PB.HooksConc in
+/-- When `RegisteredHook.Cancel` has returned the hook is out of the controller's list (also for a `Cancel` that found
+    it already removed by a concurrent `Cancel`), and stays out: hook identities are not registered twice. -/
+theorem hook_cancel_returns_removed (phaseOf : Nat → Phase) (applies : Nat → Nat → Bool) (st : HSt)
+    (h : Reach LockCfg.code phaseOf applies st) :
+    (∀ x, st.xpc x = .done → st.cancelReturned (st.xtarget x) = true) ∧
+    (∀ k, st.cancelReturned k = true → k ∉ st.hooks) := by
+  have hi := inv_reach LockCfg.code_sound h
+  exact ⟨hi.doneRet, fun k hk => (hi.retOut k hk).1⟩
+
+open PB.HooksConc in
+/-- **Called exactly by the operations inside its registration.** An operation phase (runner `g`) that took the read
+    lock after hook `k` was registered, that has returned, whose loop was not ended by a veto, and with no `Cancel`
+    of `k` called so far, has called `k` exactly once if `k` applies to it (declares the phase, matches the key /
+    record) and not at all otherwise — in every interleaving with other operations, registrations and cancels.
+    And whatever a runner calls, at any time, are hooks that apply to it, from the list it read under the lock, each
+    at most once, in list order. -/
+theorem hook_called_exactly_once_inside_registration (phaseOf : Nat → Phase) (applies : Nat → Nat → Bool) (st : HSt)
+    (h : Reach LockCfg.code phaseOf applies st) (g k : Nat)
+    (hdone : st.rpc g = .done) (hnv : st.vetoed g = false) (hreg : st.madeAtLock g k = true) (hnc : st.cancelReq k = false) :
+    (callsOf st.calls g).count k = (if applies g k then 1 else 0) ∧
+    (callsOf st.calls g).Sublist ((st.snap g).filter (applies g)) := by
+  have hd := dinv_reach LockCfg.code_sound h
+  have hl := hd.logSnap g
+  unfold LogOk at hl
+  rw [hdone] at hl
+  simp only [hnv, Bool.false_eq_true, if_false] at hl
+  rw [hl]
+  exact ⟨PB.SubsConc.count_filter_nodup (applies g) (st.snap g) k (hd.snapNodup g)
+    (hd.snapLive g k (by rw [hdone]; simp) hreg hnc), List.Sublist.refl _⟩
+
+open PB.HooksConc in
+/-- In every reachable state, what a runner has called so far is a prefix of the applicable hooks of the list it read
+    under the lock (so: only applicable hooks, in registration order, none twice). -/
+theorem hook_calls_are_applicable_in_order (phaseOf : Nat → Phase) (applies : Nat → Nat → Bool) (st : HSt)
+    (h : Reach LockCfg.code phaseOf applies st) (g : Nat) :
+    callsOf st.calls g <+: (st.snap g).filter (applies g) ∧ (callsOf st.calls g).Nodup := by
+  have hd := dinv_reach LockCfg.code_sound h
+  have hl := hd.logSnap g
+  have hn := hd.snapNodup g
+  have key : callsOf st.calls g <+: (st.snap g).filter (applies g) := by
+    unfold LogOk at hl
+    cases hg : st.rpc g with
+    | idle => rw [hg] at hl; rw [hl.1]; exact List.nil_prefix
+    | running rem =>
+      rw [hg] at hl
+      by_cases hv : st.vetoed g = true
+      · simp only [hv, if_true] at hl; exact hl.2
+      · simp only [hv, Bool.false_eq_true, if_false] at hl
+        obtain ⟨pre, h1, h2⟩ := hl
+        rw [h2, h1, List.filter_append]
+        exact List.prefix_append _ _
+    | calling c rem =>
+      rw [hg] at hl
+      obtain ⟨_, _, pre, h1, h2⟩ := hl
+      have : pre ++ c :: rem = (pre ++ [c]) ++ rem := by simp
+      rw [h2, h1, this, List.filter_append (pre ++ [c]) rem]
+      exact List.prefix_append _ _
+    | done =>
+      rw [hg] at hl
+      by_cases hv : st.vetoed g = true
+      · simp only [hv, if_true] at hl; exact hl
+      · simp only [hv, Bool.false_eq_true, if_false] at hl
+        rw [hl]; exact List.prefix_refl _
+  exact ⟨key, (hn.filter _).sublist key.sublist⟩
+
+open PB.HooksConc in
+/-- Why the lock has to be held during the calls: if a runner gives up the read lock after it has looked at the list
+    and calls the hooks afterwards (`callsUnderLock = false` for its phase), a hook is called after its `Cancel`
+    returned — two hooks on one key, the get is inside the first hook's `PreGet` while the second is cancelled. -/
+theorem hook_calls_without_the_lock_REFUTED :
+    ((runActs ⟨fun _ => false, true⟩ (fun _ => .preGet) (fun _ _ => true)
+        [.reg 1, .reg 2, .rLock 0, .rRelease 0, .rCallBegin 0, .xEnter 0 2, .xLock 0, .xRemove 0, .xUnlock 0,
+         .rCallEnd 0 false, .rCallBegin 0] {}).map (fun s => (s.cancelReturned 2, s.calls, s.late)))
+      = some (true, [(0, 1), (0, 2)], [(0, 2)]) := by
+  decide
+
+open PB.HooksConc in
+/-- … and why `Cancel` needs the lock exclusively: with the read lock only, it returns while a runner is still in its
+    loop over the list it read before. -/
+theorem hook_cancel_with_shared_lock_REFUTED :
+    ((runActs ⟨fun _ => true, false⟩ (fun _ => .prePut) (fun _ _ => true)
+        [.reg 1, .reg 2, .rLock 0, .rCallBegin 0, .xEnter 0 2, .xLock 0, .xRemove 0, .xUnlock 0,
+         .rCallEnd 0 false, .rCallBegin 0] {}).map (fun s => (s.cancelReturned 2, s.late)))
+      = some (true, [(0, 2)]) := by
+  decide
+
 /-! ## Non-vacuity -/
+
+open PB.HooksConc in
+/-- A reachable run of the hook protocol: the get is inside hook 1's call when `Cancel` of hook 2 is called; `Cancel`
+    can only lock after the runner has called hook 2 as well and unlocked; a second runner afterwards calls hook 1
+    only. Nothing is late. -/
+example : ∃ st, Reach LockCfg.code (fun _ => .preGet) (fun _ _ => true) st ∧ st.calls = [(0, 1), (0, 2), (1, 1)] ∧
+    st.cancelReturned 2 = true ∧ st.hooks = [1] ∧ st.late = [] ∧ st.rpc 1 = .done := by
+  let acts : List Act := [.reg 1, .reg 2, .rLock 0, .rCallBegin 0, .xEnter 0 2, .rCallEnd 0 false, .rCallBegin 0,
+    .rCallEnd 0 false, .rUnlock 0, .xLock 0, .xRemove 0, .xUnlock 0, .rLock 1, .rCallBegin 1, .rCallEnd 1 false, .rUnlock 1]
+  have key : (runActs LockCfg.code (fun _ => .preGet) (fun _ _ => true) acts {}).map
+      (fun st => (st.calls, st.cancelReturned 2, st.hooks, st.late, st.rpc 1)) =
+      some ([(0, 1), (0, 2), (1, 1)], true, [1], [], .done) := by rfl
+  cases hr : runActs LockCfg.code (fun _ => .preGet) (fun _ _ => true) acts {} with
+  | none => rw [hr] at key; simp at key
+  | some st =>
+    rw [hr] at key
+    simp only [Option.map_some, Option.some.injEq, Prod.mk.injEq] at key
+    exact ⟨st, reach_runActs acts {} st Reach.init hr, key⟩
+
 
 open PB.SubsConc in
 /-- A reachable run in which a write is delivered and the subscription is then cancelled while a second writer is
@@ -571,7 +800,19 @@ example :
     (run (St.init ⟨.hashmap, false⟩) ops).1.closed.map (fun p => (p.1.buf, p.2)) = [([⟨"a/x", 7, "foo", {}⟩], 2)] ∧
     (run (St.init ⟨.hashmap, false⟩) ops).1.writes.length = 3 := by
   simp [run, step, St.init, ifacePut, putDenied, Opts.all, newForm, applyOpts, putPrepared, ctrlPut, runPrePut, runRec,
-    Query.matches, storeWrite, Cfg.putForm, notify, Sub.offer, Sub.visible, permitted, PB.Gen.Subs.checkPermission,
+    Query.matches, storeWrite, Cfg.putForm, notify, notifyLoop, PB.Gen.Subs.notifySentExits, PB.Gen.Subs.notifySkipExits, Sub.visible, permitted, PB.Gen.Subs.checkPermission,
     PB.Gen.Subs.feedCap, removeSub, sPut, sErase]
+
+/-- Non-vacuity of the per-subscription proviso: the first listed subscription has a full feed, the one subscribed
+    after it an empty one; one matching write: refused for the first, buffered for the second. -/
+example :
+    let q : Query := ⟨false, fun _ => true, fun _ => true⟩
+    let r : Rec := ⟨"a/x", 1, "foo", {}⟩
+    let full : Sub := ⟨0, true, true, q, List.replicate PB.Gen.Subs.feedCap r, 0, []⟩
+    let fresh : Sub := ⟨1, true, true, q, [], 0, []⟩
+    (notifyLoop r [full, fresh]).map (fun s => (s.id, s.buf.length, s.attempts)) =
+      [(0, PB.Gen.Subs.feedCap, [(r, false)]), (1, 1, [(r, true)])] := by
+  have hpos : 0 < PB.Gen.Subs.feedCap := by decide
+  simp [notifyLoop_eq_map, Sub.offer, Sub.visible, permitted, PB.Gen.Subs.checkPermission, Query.matches, hpos]
 
 end PB.C14
